@@ -42,6 +42,7 @@ DEFAULT_PROFILE = {
     'p_share_function': 0,
     'p_dut_percent': 0,
     'p_monitor_hang': 0,
+    'p_bare': 0,             # phases whose function takes no TestApi argument (plugs only / nothing)
 }
 
 
@@ -223,6 +224,14 @@ class Gen(object):
         b.update({'kind': 'ret', 'val': 'CONTINUE', 'hang': 'u', 'dur': timeout + t.pick([4.0, 8.0], 'udur')})
       if allow_repeat and t.chance(600, 'mon_rot'):
         opts['repeat_on_timeout'] = True
+    # a phase function that takes no TestApi argument (zero-argument or plugs-only phase): openhtf then
+    # never touches running_phase_state on the phase thread before the body runs, so a body that is
+    # started late (after a stop) is not masked by the 'no running phase' error of the TestApi
+    if not meas and not spec.get('monitor') and role != 'test_start' and self.chance('p_bare'):
+      spec['bare'] = True
+      for b in beh:
+        for key in ('logs', 'xlogs', 'attach', 'dut', 'late', 'late_meas'):
+          b.pop(key, None)
     self.phases.append(spec)
     return spec
 
